@@ -34,6 +34,7 @@ type loadOpts struct {
 	fo     *ipfslog.FetchOptions
 	efo    *entry.FetchOptions
 	length *int
+	sources []iface.IPFSLogEntry // NewFromEntry: the supplied starting entries (default: the heads)
 }
 
 func newLoadOpts(h *hist, length int, conc int, exclude iface.ExcludeFunc, timeoutNs int) *loadOpts {
@@ -59,7 +60,11 @@ func loadWith(h *hist, L *ipfslog.IPFSLog, loader int, o *loadOpts) (*ipfslog.IP
 	case ldJSON:
 		return ipfslog.NewFromJSON(ctx, h.api, id, L.ToJSONLog(), o.lo, o.efo)
 	case ldEntries:
-		return ipfslog.NewFromEntry(ctx, h.api, id, L.Heads().Slice(), o.lo, o.efo)
+		src := o.sources
+		if src == nil {
+			src = L.Heads().Slice()
+		}
+		return ipfslog.NewFromEntry(ctx, h.api, id, append([]iface.IPFSLogEntry{}, src...), o.lo, o.efo)
 	default:
 		hs := L.Heads().Slice()
 		return ipfslog.NewFromEntryHash(ctx, h.api, id, hs[0].GetHash(), o.lo, o.fo)
@@ -159,9 +164,36 @@ func H_C10() {
 	conc := 1 + vx.Choice("conc", vx.Param("CMAX", 2))
 	// supplied starting entries
 	supplied := map[string]bool{}
+	var sources []iface.IPFSLogEntry
 	switch loader {
 	case ldEntries:
-		supplied = hashSet(heads)
+		sources = heads
+		if vx.Param("ANYSRC", 0) == 1 && vx.Choice("srcKind", 2) == 1 {
+			// any non-empty set of entries of the log as starting entries: the log loaded is their causal past
+			sources = nil
+			for _, e := range all {
+				if vx.Choice("src", 2) == 1 {
+					sources = append(sources, e)
+				}
+			}
+			vx.Assume(len(sources) > 0)
+			var srcCids []cid.Cid
+			for _, e := range sources {
+				srcCids = append(srcCids, e.GetHash())
+			}
+			reach := refReach(srcCids, all, map[string]bool{})
+			var sub []iface.IPFSLogEntry
+			for _, e := range all {
+				if reach[hstr(e)] {
+					sub = append(sub, e)
+				}
+			}
+			all = sub
+			size = len(all)
+			vx.Sig("sources=arbitrary")
+			vx.Cover("arbitrary-sources")
+		}
+		supplied = hashSet(sources)
 	case ldEntryHash:
 		supplied = hashSet(heads[:1])
 	}
@@ -186,6 +218,7 @@ func H_C10() {
 	}
 	h.api.gated = true
 	opts := newLoadOpts(h, n, conc, nil, 0)
+	opts.sources = sources
 	vx.ExploreOn()
 	N, err := loadWith(h, L, loader, opts)
 	vx.ExploreOff()
@@ -223,8 +256,8 @@ func H_C10() {
 			return
 		}
 		w2 := n
-		if w2 > size {
-			w2 = size
+		if full := L.Len(); w2 > full { // the second load is of the whole log
+			w2 = full
 		}
 		vx.Assert("C10", N2.Len() == w2, "a later load with the same option values still returns exactly min(n,size) entries")
 		vx.Cover("limit-reused")
